@@ -175,6 +175,9 @@ def emit_item(unit, store, relfile, path, mode):
     body = src[item.body_open:item.end]
     sig_line = base_line
     body_line = src.count("\n", 0, item.body_open) + 1
+    if relfile.startswith("dep:"):
+        sig, c6 = rsx.r6_dep_2015(sig)
+        unit.rewrites["R6"] = unit.rewrites.get("R6", 0) + c6
     if ov and ov.ret:
         sig2, c = rsx.r3_name_result(sig, ov.ret)
         if not c:
